@@ -36,3 +36,50 @@ Fixpoint key_entry (depth : N) (v : value) : res (list N) :=
   | other => Ok [depth; level_of_tag (tag_of other)]
   end.
 Definition comparable_key (v : value) : res (list N) := key_entry 0 v.
+
+(* ---- the class of documents on which the key is PROVED to order as compare does (KeyContainerProofs.v) ----
+   key_safe d v: v, sitting at nesting depth d (its key starts with the marker byte d), is outside both collision
+   classes:
+   * every number is exactly a double (finite, infinite, either zero, the canonical NaN, or an integer a double holds);
+   * a non-empty container sits at depth <= 254, so that its members' marker d + 1 does not saturate;
+   * every byte of a string at depth d is greater than d: inside the concatenated key a string is followed by the
+     marker of its next sibling (d), of a next sibling of an ancestor (< d), or by the end of the key;
+   * every byte of an object key in an object at depth d is greater than d + 1: a key is always followed by the
+     marker d + 1 of its own value. *)
+Definition float_okb (b : N) : bool := (b <? two64) && (negb (f_is_nan b) || (b =? F_NAN)).
+Definition num_key_exactb (n : num) : bool :=
+  float_okb (as_f64 n) && match num_cmp n (NFloat (as_f64 n)) with Eq => true | _ => false end.
+Definition bytes_above (d : N) (s : list N) : bool := forallb (fun c => d <? c) s.
+Fixpoint key_safe (d : N) (v : value) : bool :=
+  match v with
+  | VArr l =>
+      match l with [] => true | _ => d <? 255 end &&
+      (fix go (l : list value) : bool :=
+         match l with [] => true | x :: r => key_safe (d + 1) x && go r end) l
+  | VObj o =>
+      match o with [] => true | _ => d <? 255 end &&
+      (fix go (l : list (list N * value)) : bool :=
+         match l with [] => true | (k, x) :: r => bytes_above (d + 1) k && key_safe (d + 1) x && go r end) o
+  | VStr s => bytes_above d s
+  | VNum n => num_key_exactb n
+  | _ => true
+  end.
+(* a whole document: at top level nothing follows a string, so a top-level string is unrestricted *)
+Definition key_safe_doc (v : value) : bool := match v with VStr _ => true | _ => key_safe 0 v end.
+
+(* a uniform sufficient condition, easy to check on a document: every number exact, nesting at most D levels
+   (D <= 255), every string byte and key byte greater than D.  Printable text (bytes >= 32) in documents nested at
+   most 31 levels deep is inside. *)
+Fixpoint key_plain (D : N) (fuel : nat) (v : value) {struct v} : bool :=
+  match v with
+  | VArr l =>
+      match fuel with O => match l with [] => true | _ => false end | S f =>
+      (fix go (l : list value) : bool := match l with [] => true | x :: r => key_plain D f x && go r end) l end
+  | VObj o =>
+      match fuel with O => match o with [] => true | _ => false end | S f =>
+      (fix go (l : list (list N * value)) : bool :=
+         match l with [] => true | (k, x) :: r => bytes_above D k && key_plain D f x && go r end) o end
+  | VStr s => bytes_above D s
+  | VNum n => num_key_exactb n
+  | _ => true
+  end.
